@@ -26,6 +26,13 @@ func TestSmoke(t *testing.T) {
 	}
 }
 
+func init() {
+	// governance may set any half-life factor (the parameter has no validation): from one second to the default year
+	RegisterOp("rep_param_any", func(s *Sim) {
+		s.repSetHalfLife([]uint64{1, 7, 60, 600, 3600, 86400, 30 * 86400, 365 * 86400}[s.R.Intn(8)])
+	})
+}
+
 // C37: block processing never halts the chain.
 func TestC37(t *testing.T) {
 	run := ev.Start("C37")
@@ -34,6 +41,7 @@ func TestC37(t *testing.T) {
 	hq := profRep(3)
 	hq.Name = "hostileqos"
 	hq.W["rep_relay"], hq.W["rep_relay_astro"], hq.W["month"] = 10, 30, 1
+	hq.W["rep_param"], hq.W["rep_decay"], hq.W["rep_param_any"] = 0, 0, 3 // (the C24 ops keep the half-life in a safe range)
 	profiles := []*Profile{profEconomic(), profUnusual(), {Name: "default", Providers: 6, Consumers: 3, Delegators: 2, Validators: 2, KeepPools: true}, hq}
 	for h := 0; h < nHist; h++ {
 		prof := profiles[h%len(profiles)]
